@@ -275,6 +275,15 @@ def splice(F, c, H):
         nodes.append({"i": nid, "k": "DeclStmt", "c": [a], "l": call.get("l"), "inl": H["sig"],
                       "decls": [{"id": prm["id"], "n": prm["n"], "t": prm["t"], "init": a}]})
         pre_els.append(nid)
+    # `(*p).field` produced by substituting a reference parameter bound to `*p` reads as `p->field`
+    for n in hn:
+        if n.get("k") == "MemberExpr" and not n.get("arrow") and n.get("c"):
+            b_ = n["c"][0]
+            while b_ >= 0 and nodes[b_]["k"] in TRANSPARENT and nodes[b_].get("c"):
+                b_ = nodes[b_]["c"][0]
+            if b_ >= 0 and nodes[b_]["k"] == "UnaryOperator" and nodes[b_].get("op") == "*" and nodes[b_].get("c"):
+                n["arrow"] = True
+                n["c"] = [nodes[b_]["c"][0]]
     # ---- copy the helper's blocks
     boff = max(blocks) + 1
     hb = copy.deepcopy(H["cfg"]["blocks"])
@@ -536,8 +545,8 @@ def dealias_new_snapshots(raw, make_function, known=None):
         nodes = F["nodes"]
         cands = []
         for n in nodes:
-            if n["k"] != "DeclStmt" or n.get("inl"):
-                continue
+            if n["k"] != "DeclStmt":
+                continue        # (parameter locals of spliced helpers included: `release(data)` reads as the caller's `this->data`)
             for dd in n.get("decls", []) or []:
                 t = dd.get("t", "").replace(" ", "")
                 if not (t.endswith("*") or t.endswith("*const")) or dd["n"] in have or not isinstance(dd.get("init"), int):
@@ -601,8 +610,8 @@ def dealias_new_snapshots(raw, make_function, known=None):
                 stack = list(f.succs_pos(kp))
                 while stack:
                     x = stack.pop()
-                    if x in reach:
-                        continue
+                    if x in reach or x == dpos:
+                        continue        # (the declaration binds the local anew: what was stored before it does not matter after it)
                     reach.add(x)
                     stack.extend(f.succs_pos(x))
             for u in uses:
